@@ -205,7 +205,7 @@ fn run_case<G: AffineRepr>(bp: &BulletproofGens<G>, curve: &str, c: &Case) -> Ca
         };
         let (chs, _) = challenges_from_log::<G>(&log);
         let uk: Vec<F<G>> = chs.iter().map(|c| c.1).collect();
-        let rv = if claimed_n <= Gs.len() { mon::quiet(|| ref_ipp_verify::<G>(claimed_n, mm, gfv, hfv, Pv, &Q, &Gs, &Hs, &uk)) } else { Err("shape:n!=2^k") };
+        let rv = if claimed_n <= Gs.len() && claimed_n >= 1 { mon::quiet(|| ref_ipp_verify::<G>(claimed_n, mm, gfv, hfv, Pv, &Q, &Gs, &Hs, &uk)) } else { Err("shape:n!=2^k") };
         let class = name.split('[').next().unwrap_or("");
         o.count(&format!("{}: real={} ref={}", class, if res.is_ok() { "accept" } else { "reject" }, match &rv { Ok(()) => "accept".to_string(), Err(e) => format!("reject({})", e.split(':').next().unwrap_or("")) }), 1);
         if let Err(e) = &rv {
@@ -307,6 +307,16 @@ fn run_case<G: AffineRepr>(bp: &BulletproofGens<G>, curve: &str, c: &Case) -> Ca
         let hf2: Vec<F<G>> = hf.iter().chain(hf.iter()).cloned().collect();
         if 2 * n <= Gs.len() {
             check("claimed 2n", 2 * n, &m, &gf2, &hf2, &P, Some(false), &mut o);
+        }
+    }
+    // every claimed length 0..=2n+1 other than n (small n): must be rejected, never panic
+    if n <= 8 {
+        let gf3: Vec<F<G>> = gf.iter().cycle().take(2 * n + 2).cloned().collect();
+        let hf3: Vec<F<G>> = hf.iter().cycle().take(2 * n + 2).cloned().collect();
+        for claimed in 0..=(2 * n + 1) {
+            if claimed != n && claimed <= Gs.len() {
+                check(&format!("claimed length[{}]", claimed), claimed, &m, &gf3, &hf3, &P, Some(false), &mut o);
+            }
         }
     }
     // one factor changed (changes P's meaning when the vectors are dense)
